@@ -387,6 +387,36 @@ class PyReader:
             return num(v)
         self.fail(n, f"expected a scalar, got {type(v).__name__}")
 
+    def has_names(self, t, names: set) -> bool:
+        """SymPy's .has() on the automatically evaluated expression: decided on the normal form when there is one (diff(u, u) is 1 and has no u)"""
+        from .alg import normalize, SQRT_RADICANDS
+        if isinstance(t, int):
+            return False
+        try:
+            r = normalize(t)
+        except (AnalysisError, ZeroDivisionError):
+            return term_has(t, names)
+        found = False
+        opaque = False
+        stack = [k for pl in (r.n, r.d) for k in pl.atoms()]
+        seen = set()
+        while stack:
+            k = stack.pop()
+            if k in seen:
+                continue
+            seen.add(k)
+            if k[0] in ("v", "sin", "cos") and k[1] in names:
+                found = True
+            elif k[0] == "f" and set(k[3]) & names:
+                found = True
+            elif k[0] == "sqrt" and k in SQRT_RADICANDS:
+                stack.extend(SQRT_RADICANDS[k].atoms())
+            elif k[0] == "app":
+                opaque = True
+        if found:
+            return True
+        return term_has(t, names) if opaque else False
+
     def hook_attr(self, base, attr: str, n: ast.AST):
         """hook for attributes of rule-specific objects; NotImplemented = not known"""
         return NotImplemented
@@ -570,7 +600,7 @@ class PyReader:
                         names.add(a.val)
                     else:
                         self.fail(n, ".has() of a non-variable")
-                return term_has(base, names)
+                return self.has_names(base, names)
         if name == "diff" and len(args) >= 2:
             return op("diff", self.scalar(args[0], n), *[self.scalar(a, n) for a in args[1:]])
         if name in fns or name in self.functions:
